@@ -895,3 +895,462 @@ Proof.
   intros Hv. destruct (declined_is_none_or_fail T v) as [[b H]|[H|[_ [id [tbl [id' [H _]]]]]]].
   - eauto. - eauto. - destruct Hv as [->|[t [sv ->]]]; discriminate.
 Qed.
+(* ---------- boolean equalities of Check/C11.v ---------- *)
+Lemma sty_eqb_refl t : sty_eqb t t = true.
+Proof. unfold sty_eqb. now rewrite N.eqb_refl, skind_eqb_refl. Qed.
+Lemma sty_eqb_eq a b : sty_eqb a b = true -> a = b.
+Proof.
+  destruct a as [i k], b as [i' k']. unfold sty_eqb. cbn. intros H. apply andb_prop in H as [H1 H2].
+  apply N.eqb_eq in H1. apply skind_eqb_eq in H2. now subst.
+Qed.
+Lemma sval_eqb_refl v : sval_eqb v v = true.
+Proof. destruct v; cbn; auto using Z.eqb_refl, str_eqb_refl, eqb_reflx. Qed.
+Lemma sval_eqb_eq a b : sval_eqb a b = true -> a = b.
+Proof.
+  destruct a, b; cbn; intros H; try discriminate; f_equal;
+    try (now apply Z.eqb_eq); try (now apply str_eqb_eq); try (now apply eqb_prop).
+Qed.
+Lemma tval_eqb_refl v : tval_eqb v v = true.
+Proof. destruct v; cbn; now rewrite ?N.eqb_refl, sty_eqb_refl, sval_eqb_refl. Qed.
+Lemma tval_eqb_eq a b : tval_eqb a b = true -> a = b.
+Proof.
+  destruct a, b; cbn; intros H; try discriminate.
+  - apply andb_prop in H as [H1 H2]. apply sty_eqb_eq in H1. apply sval_eqb_eq in H2. now subst.
+  - apply andb_prop in H as [H H3]. apply andb_prop in H as [H1 H2].
+    apply N.eqb_eq in H1. apply sty_eqb_eq in H2. apply sval_eqb_eq in H3. now subst.
+Qed.
+Lemma dval_eqb_eq a b : dval_eqb a b = true -> a = b.
+Proof.
+  destruct a, b; cbn; intros H; try discriminate; try reflexivity.
+  apply andb_prop in H as [H1 H2]. apply sty_eqb_eq in H1. apply sval_eqb_eq in H2. now subst.
+Qed.
+Lemma obs_eqb_eq a b : obs_eqb a b = true -> a = b.
+Proof.
+  destruct a, b; cbn; intros H; try discriminate; try reflexivity.
+  - f_equal. now apply tval_eqb_eq.
+  - f_equal. destruct unk, unk0; cbn in H; try discriminate; try reflexivity. f_equal. now apply dval_eqb_eq.
+Qed.
+
+(* ---------- magnitudes ---------- *)
+Lemma mag_le_spec m e m' e' :
+  mag_le m e m' e' = true <-> (IZR m * bpow radix2 e <= IZR m' * bpow radix2 e')%R.
+Proof.
+  unfold mag_le. cbv zeta. set (E := Z.min e e').
+  rewrite <- (scale_int m e E), <- (scale_int m' e' E) by lia.
+  pose proof (bpow_gt_0 radix2 E) as Hb.
+  rewrite Z.leb_le. split; intros H.
+  - apply Rmult_le_compat_r; [lra|]. now apply IZR_le.
+  - apply le_IZR. apply Rmult_le_reg_r with (1 := Hb). exact H.
+Qed.
+
+Lemma max32_split : IZR max_float32_Z = (IZR max32_m * bpow radix2 max32_e)%R.
+Proof. unfold max32_e. rewrite bpow_IZR by lia. rewrite <- mult_IZR. f_equal. Qed.
+
+Lemma Rabs_B2R_finite {p e} s m ex H :
+  Rabs (B2R (B754_finite s m ex H : binary_float p e)) = (IZR (Zpos m) * bpow radix2 ex)%R.
+Proof.
+  unfold B2R. rewrite <- F2R_Zabs, abs_cond_Zopp. reflexivity.
+Qed.
+
+(* ---------- a correctly rounded result passes [round_ok] ---------- *)
+Section RoundOk.
+Variables mw ew nanbits : Z.
+Hypothesis Hmw : 0 < mw.
+Hypothesis Hew : 0 < ew.
+Hypothesis Hnan : decode mw ew nanbits = FNan.
+Notation fexp := (FLT_exp (fmt_emin mw ew) (mw + 1)).
+
+Lemma round_ok_sound (g : binary_float (mw + 1) (2 ^ (ew - 1))) s m e :
+  is_finite g = true -> 0 <= m -> Bsign g = s ->
+  B2R g = round radix2 fexp ZnearestE (if s then - (IZR m * bpow radix2 e) else IZR m * bpow radix2 e)%R ->
+  round_ok mw ew s m e (bits_of_bsn mw ew nanbits g) = true.
+Proof.
+  intros Hf Hm Hs Hv. unfold round_ok. rewrite (decode_bits_of_bsn mw ew nanbits g Hmw Hew Hnan).
+  assert (Hp : 1 < mw + 1) by lia.
+  assert (Hx : round radix2 fexp ZnearestE (IZR m * bpow radix2 e) = Rabs (B2R g) /\
+               (B2R g = if s then - Rabs (B2R g) else Rabs (B2R g))%R).
+  { assert (0 <= round radix2 fexp ZnearestE (IZR m * bpow radix2 e))%R.
+    { apply round_ge_generic; auto with typeclass_instances.
+      - apply FLT_exp_valid. unfold Prec_gt_0. lia.
+      - apply generic_format_0.
+      - apply Rmult_le_pos; [now apply IZR_le|apply bpow_ge_0]. }
+    destruct s.
+    - rewrite round_NE_opp in Hv. rewrite Hv, Rabs_Ropp, Rabs_pos_eq by assumption. split; [reflexivity|lra].
+    - rewrite Hv, Rabs_pos_eq by assumption. split; reflexivity. }
+  destruct Hx as [Hx _].
+  destruct g as [s'|s'| |s' mm ee Hb]; try discriminate; unfold fdec_of.
+  - cbn [Bsign] in Hs. rewrite Hs, eqb_reflx. cbn [andb].
+    apply (nearest_mag_sound_zero (mw + 1) (fmt_emin mw ew) Hp); [exact Hm|].
+    rewrite Hx. cbn [B2R]. apply Rabs_R0.
+  - cbn [Bsign] in Hs. rewrite Hs, eqb_reflx. cbn [andb].
+    destruct (bounded_facts (mw + 1) (2 ^ (ew - 1)) mm ee ltac:(lia) Hb) as [B1 [B2 _]].
+    apply (nearest_mag_sound_pos (mw + 1) (fmt_emin mw ew) Hp); try assumption.
+    + exact (canonical_bounded (mw + 1) (2 ^ (ew - 1)) false mm ee Hb).
+    + rewrite Hx, Rabs_B2R_finite. reflexivity.
+Qed.
+End RoundOk.
+
+Lemma round_ok_sound32 (g : b32) s m e :
+  is_finite g = true -> 0 <= m -> Bsign g = s ->
+  B2R g = round radix2 fexp32 ZnearestE (if s then - (IZR m * bpow radix2 e) else IZR m * bpow radix2 e)%R ->
+  round_ok 23 8 s m e (bits_of_f32 g) = true.
+Proof. apply (round_ok_sound 23 8 nan32_bits); reflexivity. Qed.
+Lemma round_ok_sound64 (g : b64) s m e :
+  is_finite g = true -> 0 <= m -> Bsign g = s ->
+  B2R g = round radix2 fexp64 ZnearestE (if s then - (IZR m * bpow radix2 e) else IZR m * bpow radix2 e)%R ->
+  round_ok 52 11 s m e (bits_of_f64 g) = true.
+Proof. apply (round_ok_sound 52 11 nan64_bits); reflexivity. Qed.
+(* ---------- the oracle's per-case test ---------- *)
+Definition agrees (x : expect) (src : dval) (o : obs) : bool :=
+  match x, o with
+  | XDecline, ODeclined (Some u) => dval_eqb u (canon_dval src)
+  | XBind v, OBound o => tval_eqb o (canon_tval v)
+  | XRound32 t s m e, OBound (TV t' (SF32 r)) => sty_eqb t t' && round_ok 23 8 s m e r
+  | XRound64 t s m e, OBound (TV t' (SF64 r)) => sty_eqb t t' && round_ok 52 11 s m e r
+  | _, _ => false
+  end.
+Lemma check_agrees c : check c = agrees (spec (c_target c) (c_src c)) (c_src c) (c_obs c).
+Proof. reflexivity. Qed.
+
+(* what the model turns an optional converted scalar into *)
+Definition obs_of (t : sty) (src : dval) (o : option sval) : obs :=
+  match o with
+  | Some v => OBound (canon_tval (TV t v))
+  | None => ODeclined (Some (canon_dval src))
+  end.
+
+Lemma agrees_decline t sv : agrees XDecline (DS t sv) (obs_of t (DS t sv) None) = true.
+Proof. cbn. now rewrite sty_eqb_refl, sval_eqb_refl. Qed.
+Lemma agrees_decline' t t' sv : agrees XDecline (DS t sv) (obs_of t' (DS t sv) None) = true.
+Proof. cbn. now rewrite sty_eqb_refl, sval_eqb_refl. Qed.
+Lemma agrees_bind t src v : agrees (XBind (TV t v)) src (obs_of t src (Some v)) = true.
+Proof. cbn [agrees obs_of]. apply tval_eqb_refl. Qed.
+
+Lemma fin_int_spec {p e} s m ex (H : SpecFloat.bounded p e m ex = true) :
+  fin_int s (Zpos m) ex =
+  if is_integral (B754_finite s m ex H) then Some (to_Z (B754_finite s m ex H)) else None.
+Proof.
+  unfold fin_int, is_integral, to_Z, sgn.
+  destruct (0 <=? ex); cbn [orb]; [reflexivity|].
+  destruct (Z.pos m mod 2 ^ (- ex) =? 0); reflexivity.
+Qed.
+
+(* a finite non-zero float64 value has one bit pattern *)
+Lemma f64_bits_inj b b' :
+  0 <= b < two64 -> 0 <= b' < two64 ->
+  is_finite (f64_of_bits b) = true -> is_finite (f64_of_bits b') = true ->
+  B2R (f64_of_bits b) = B2R (f64_of_bits b') -> B2R (f64_of_bits b) <> 0%R -> b = b'.
+Proof.
+  intros Hb Hb' Hf Hf' Hv Hnz. unfold f64_of_bits in *.
+  set (x := Bits.b64_of_bits b) in *. set (y := Bits.b64_of_bits b') in *.
+  assert (Sx : Binary.is_finite_strict 53 1024 x = true).
+  { rewrite <- Binary.is_finite_strict_B2BSN. destruct (Binary.B2BSN 53 1024 x); try discriminate; [|reflexivity].
+    exfalso. apply Hnz. reflexivity. }
+  assert (Sy : Binary.is_finite_strict 53 1024 y = true).
+  { rewrite <- Binary.is_finite_strict_B2BSN. rewrite Hv in Hnz.
+    destruct (Binary.B2BSN 53 1024 y); try discriminate; [|reflexivity].
+    exfalso. apply Hnz. reflexivity. }
+  rewrite !Binary.B2R_B2BSN in Hv.
+  pose proof (Binary.B2R_inj 53 1024 x y Sx Sy Hv) as E.
+  rewrite <- (Bits.bits_of_binary_float_of_bits 52 11 eq_refl eq_refl eq_refl b) by exact Hb.
+  rewrite <- (Bits.bits_of_binary_float_of_bits 52 11 eq_refl eq_refl eq_refl b') by exact Hb'.
+  fold (Bits.b64_of_bits b). fold (Bits.b64_of_bits b'). fold x. fold y. now rewrite E.
+Qed.
+
+Lemma k6_bits k b : is_int_kind k = true -> 0 <= b < two64 ->
+  is_finite (f64_of_bits b) = true -> B2R (f64_of_bits b) = IZR (fmax k) -> int_max k < fmax k ->
+  match k with KInt | KInt64 => b =? bits_two63 | KUint | KUint64 => b =? bits_two64 | _ => false end = true.
+Proof.
+  intros Hk Hb Hf Hv Hlt.
+  destruct f64_int64_boundary as [[F1 [V1 _]] [F2 [V2 _]]].
+  assert (N1 : IZR two63 <> 0%R) by (apply IZR_neq; discriminate).
+  assert (N2 : IZR two64 <> 0%R) by (apply IZR_neq; discriminate).
+  destruct k; try discriminate; cbn [fmax int_max] in *; try lia.
+  all: apply Z.eqb_eq; apply f64_bits_inj; try assumption; try (unfold bits_two63, bits_two64, two64; lia);
+       try congruence.
+Qed.
+
+Lemma in_range_zero k : is_int_kind k = true -> in_range k 0 = true.
+Proof. destruct k; try discriminate; reflexivity. Qed.
+
+Lemma f64_int_case t src b :
+  is_int_kind (s_kind t) = true -> 0 <= b < two64 ->
+  match s_kind t with KInt | KInt64 => b =? bits_two63 | KUint | KUint64 => b =? bits_two64 | _ => false end = false ->
+  agrees XDecline src (obs_of t src None) = true ->
+  agrees (spec_f64 t b) src (obs_of t src (conv_f64 (s_kind t) b)) = true.
+Proof.
+  intros Hk Hb Hk6 Hdec.
+  unfold spec_f64. rewrite Hk. rewrite (conv_f64_int_spec (s_kind t) b Hk). cbv zeta.
+  rewrite dec64_spec. set (k := s_kind t) in *.
+  pose proof (fmax_slack k Hk) as Hfs.
+  assert (Hsl : 0 <= slack k <= 1) by (destruct k; cbn; lia).
+  destruct (f64_of_bits b) as [s|s| |s m ex He] eqn:Ef; unfold fdec_of.
+  - (* zero *)
+    unfold fin_int. cbn [Z.leb Z.compare]. rewrite Zmod_0_l, Zdiv_0_l. cbn [Z.eqb].
+    replace (sgn s 0) with 0 by (destruct s; reflexivity).
+    rewrite in_range_zero by exact Hk. cbn [is_integral to_Z andb].
+    assert (Hr : int_min k <= 0 <= int_max k).
+    { pose proof (in_range_zero k Hk) as H. unfold in_range in H. apply andb_prop in H as [H1 H2].
+      apply Z.leb_le in H1, H2. lia. }
+    destruct (Z.leb_spec (int_min k) 0); [|lia]. destruct (Z.leb_spec 0 (fmax k)); [|lia]. cbn [andb].
+    rewrite amd64_in_range by assumption. apply agrees_bind.
+  - exact Hdec.
+  - exact Hdec.
+  - rewrite fin_int_spec with (H := He). set (f := B754_finite s m ex He) in *.
+    destruct (is_integral f) eqn:Hi; [|exact Hdec]. cbn [andb].
+    unfold in_range.
+    destruct (Z.leb_spec (int_min k) (to_Z f)); [|exact Hdec]. cbn [andb].
+    destruct (Z.leb_spec (to_Z f) (int_max k)).
+    + destruct (Z.leb_spec (to_Z f) (fmax k)); [|lia].
+      rewrite amd64_in_range by (try assumption; lia). apply agrees_bind.
+    + destruct (Z.leb_spec (to_Z f) (fmax k)); [|exact Hdec].
+      exfalso. assert (Ez : to_Z f = fmax k) by lia.
+      pose proof (k6_bits k b Hk Hb) as K. rewrite Ef in K. fold f in K.
+      rewrite K in Hk6; [discriminate|reflexivity| |lia].
+      rewrite <- Ez. now apply to_Z_correct.
+Qed.
+Lemma canon_f32_finite (g : b32) : is_finite g = true -> canon_sval (SF32 (bits_of_f32 g)) = SF32 (bits_of_f32 g).
+Proof.
+  intros H. unfold canon_sval, is_nan_bits. fold dec32. rewrite dec32_bits_of_f32.
+  destruct g; try discriminate; reflexivity.
+Qed.
+Lemma canon_f64_finite (g : b64) : is_finite g = true -> canon_sval (SF64 (bits_of_f64 g)) = SF64 (bits_of_f64 g).
+Proof.
+  intros H. unfold canon_sval, is_nan_bits. fold dec64. rewrite dec64_bits_of_f64.
+  destruct g; try discriminate; reflexivity.
+Qed.
+
+Lemma agrees_round32 t src s m e (g : b32) :
+  is_finite g = true -> 0 <= m -> Bsign g = s ->
+  B2R g = round radix2 fexp32 ZnearestE (if s then - (IZR m * bpow radix2 e) else IZR m * bpow radix2 e)%R ->
+  agrees (XRound32 t s m e) src (obs_of t src (Some (SF32 (bits_of_f32 g)))) = true.
+Proof.
+  intros Hf Hm Hs Hv. cbn [obs_of canon_tval]. rewrite canon_f32_finite by exact Hf.
+  cbn [agrees]. rewrite sty_eqb_refl. cbn [andb]. now apply round_ok_sound32.
+Qed.
+Lemma agrees_round64 t src s m e (g : b64) :
+  is_finite g = true -> 0 <= m -> Bsign g = s ->
+  B2R g = round radix2 fexp64 ZnearestE (if s then - (IZR m * bpow radix2 e) else IZR m * bpow radix2 e)%R ->
+  agrees (XRound64 t s m e) src (obs_of t src (Some (SF64 (bits_of_f64 g)))) = true.
+Proof.
+  intros Hf Hm Hs Hv. cbn [obs_of canon_tval]. rewrite canon_f64_finite by exact Hf.
+  cbn [agrees]. rewrite sty_eqb_refl. cbn [andb]. now apply round_ok_sound64.
+Qed.
+
+Lemma B2R_finite_signed {p e} s m ex H :
+  B2R (B754_finite s m ex H : binary_float p e) =
+  (if s then - (IZR (Zpos m) * bpow radix2 ex) else IZR (Zpos m) * bpow radix2 ex)%R.
+Proof.
+  unfold B2R. destruct s; cbn [SpecFloat.cond_Zopp].
+  - change (Z.neg m) with (- Z.pos m). rewrite F2R_Zopp. reflexivity.
+  - reflexivity.
+Qed.
+
+Lemma f64_f32_case t src b :
+  s_kind t = KFloat32 ->
+  agrees XDecline src (obs_of t src None) = true ->
+  agrees (spec_f64 t b) src (obs_of t src (conv_f64 (s_kind t) b)) = true.
+Proof.
+  intros Hk Hdec. unfold spec_f64. rewrite Hk. cbn [is_int_kind is_signed is_unsigned orb].
+  rewrite conv_f64_f32_spec. cbv zeta. rewrite dec64_spec.
+  destruct (f64_of_bits b) as [s|s| |s m ex He] eqn:Ef; unfold fdec_of.
+  - (* zero *)
+    assert (Hle : (Rabs (B2R (B754_zero s : b64)) <= IZR max_float32_Z)%R).
+    { cbn [B2R]. rewrite Rabs_R0. apply (IZR_le 0). discriminate. }
+    assert (Hm : mag_le 0 (-1074) max32_m max32_e = true).
+    { apply mag_le_spec. rewrite Rmult_0_l, <- max32_split. apply (IZR_le 0). discriminate. }
+    rewrite Hm. rewrite Rlt_bool_false by exact Hle.
+    destruct (f64_to_f32_correct (B754_zero s) eq_refl Hle) as [G1 [G2 G3]].
+    apply agrees_round32; try assumption; [lia|].
+    rewrite G2. cbn [B2R]. f_equal. destruct s; ring.
+  - exact Hdec.
+  - apply agrees_bind.
+  - set (f := B754_finite s m ex He : b64) in *.
+    pose proof (Rabs_B2R_finite s m ex He) as Ha. fold f in Ha.
+    destruct (Rlt_bool_spec (IZR max_float32_Z) (Rabs (B2R f))) as [Hgt|Hle].
+    + assert (Hm : mag_le (Z.pos m) ex max32_m max32_e = false).
+      { destruct (mag_le (Z.pos m) ex max32_m max32_e) eqn:E; [|reflexivity].
+        apply mag_le_spec in E. rewrite <- max32_split, <- Ha in E. lra. }
+      rewrite Hm. exact Hdec.
+    + assert (Hm : mag_le (Z.pos m) ex max32_m max32_e = true).
+      { apply mag_le_spec. rewrite <- max32_split, <- Ha. exact Hle. }
+      rewrite Hm.
+      destruct (f64_to_f32_correct f eq_refl Hle) as [G1 [G2 G3]].
+      apply agrees_round32; try assumption; [lia|].
+      rewrite G2. f_equal. apply B2R_finite_signed.
+Qed.
+
+Lemma f64_case t src b :
+  0 <= b < two64 ->
+  match s_kind t with KInt | KInt64 => b =? bits_two63 | KUint | KUint64 => b =? bits_two64 | _ => false end = false ->
+  agrees XDecline src (obs_of t src None) = true ->
+  agrees (spec_f64 t b) src (obs_of t src (conv_f64 (s_kind t) b)) = true.
+Proof.
+  intros Hb Hk6 Hdec.
+  destruct (is_int_kind (s_kind t)) eqn:Hi; [now apply f64_int_case|].
+  destruct (s_kind t) eqn:Hk; try discriminate.
+  - unfold spec_f64. rewrite Hk. exact Hdec.
+  - unfold spec_f64. rewrite Hk. exact Hdec.
+  - rewrite <- Hk. now apply f64_f32_case.
+  - unfold spec_f64. rewrite Hk. cbn [is_int_kind is_signed is_unsigned orb conv_f64]. apply agrees_bind.
+Qed.
+
+Lemma i64_case t src z :
+  - two63 <= z < two63 ->
+  agrees XDecline src (obs_of t src None) = true ->
+  agrees (spec_i64 t z) src (obs_of t src (conv_i64 (s_kind t) z)) = true.
+Proof.
+  intros Hz Hdec. unfold spec_i64.
+  destruct (is_int_kind (s_kind t)) eqn:Hi.
+  - destruct (i64_to_int_shape (s_kind t) z Hi) as [E|E]; rewrite E.
+    + destruct (in_range (s_kind t) z) eqn:Hr; [|exact Hdec]. exfalso.
+      unfold in_range in Hr. apply andb_prop in Hr as [H1 H2]. apply Z.leb_le in H1, H2.
+      assert (H : conv_i64 (s_kind t) z = Some (SInt z)) by (apply i64_to_int_exact_complete; auto).
+      congruence.
+    + apply (i64_to_int_exact_complete _ z z Hi) in E as [_ E].
+      unfold in_range. destruct (Z.leb_spec (int_min (s_kind t)) z); [|lia].
+      destruct (Z.leb_spec z (int_max (s_kind t))); [|lia]. apply agrees_bind.
+  - destruct (s_kind t) eqn:Hk; try discriminate; try exact Hdec.
+    + (* float32 *)
+      destruct (i64_to_f32_lossless z Hz) as [L1 L2].
+      destruct (i64_to_f32_correct z ltac:(lia)) as [G1 [G2 G3]].
+      pose proof (fits_format 24 (-149) ltac:(lia) ltac:(lia) (Z.abs z) (Z.abs_nonneg z)) as Hfit.
+      rewrite abs_IZR in Hfit.
+      destruct (fits 24 (Z.abs z)) eqn:Ef.
+      * assert (Hfmt : generic_format radix2 fexp32 (IZR z)).
+        { apply generic_format_abs_inv. now apply Hfit. }
+        destruct (L1 Hfmt) as [E _]. rewrite E.
+        apply agrees_round32; try assumption; [lia|].
+        rewrite G2. f_equal. change (bpow radix2 0) with 1%R. rewrite Rmult_1_r.
+        destruct (Z.ltb_spec z 0).
+        -- rewrite Z.abs_neq by lia. rewrite opp_IZR. ring.
+        -- now rewrite Z.abs_eq by lia.
+      * rewrite L2; [exact Hdec|]. intros Hfmt.
+        apply generic_format_abs in Hfmt. apply Hfit in Hfmt. discriminate.
+    + (* float64 *)
+      destruct (i64_to_f64_correct z ltac:(lia)) as [G1 [G2 G3]].
+      unfold conv_i64. cbn [is_signed is_unsigned].
+      apply agrees_round64; try assumption; [lia|].
+      rewrite G2. f_equal. change (bpow radix2 0) with 1%R. rewrite Rmult_1_r.
+      destruct (Z.ltb_spec z 0).
+      * rewrite Z.abs_neq by lia. rewrite opp_IZR. ring.
+      * now rewrite Z.abs_eq by lia.
+Qed.
+(* ---------- the model on well-formed cases ---------- *)
+Definition mk (T : fty) (v : dval) (o : obs) : case := {| c_target := T; c_src := v; c_obs := o |}.
+
+Lemma model_same_id o t vt sv : s_id t = s_id vt ->
+  model (mk (FScalar t) (DS vt sv) o) = OBound (canon_tval (TV vt sv)).
+Proof.
+  intros E. unfold model, mk. cbn [c_target c_src]. unfold try_convert. cbn [dval_ty fty_id].
+  rewrite E, N.eqb_refl. reflexivity.
+Qed.
+
+Lemma model_f64 o t vt b : s_id t <> s_id vt -> s_id vt = 13%N -> s_kind vt = KFloat64 ->
+  model (mk (FScalar t) (DS vt (SF64 b)) o) = obs_of t (DS vt (SF64 b)) (conv_f64 (s_kind t) b).
+Proof.
+  intros Hne H13 Hk. unfold model, mk. cbn [c_target c_src]. unfold try_convert. cbn [dval_ty fty_id].
+  destruct (N.eqb_spec (s_id vt) (s_id t)); [congruence|].
+  unfold is_f64_val. rewrite H13. cbn [N.eqb Pos.eqb]. unfold opt_bscalar.
+  destruct (conv_f64 (s_kind t) b) eqn:Ec; cbn [option_map]; [reflexivity|].
+  rewrite Hk. destruct (s_kind t) eqn:Ekt; try reflexivity. discriminate.
+Qed.
+
+Lemma model_i64 o t vt z : s_id t <> s_id vt -> s_id vt = 6%N -> s_kind vt = KInt64 ->
+  in_range KInt64 z = true ->
+  model (mk (FScalar t) (DS vt (SInt z)) o) = obs_of t (DS vt (SInt z)) (conv_i64 (s_kind t) z).
+Proof.
+  intros Hne H6 Hk Hr. unfold model, mk. cbn [c_target c_src]. unfold try_convert. cbn [dval_ty fty_id].
+  destruct (N.eqb_spec (s_id vt) (s_id t)); [congruence|].
+  unfold is_f64_val, is_i64_val. rewrite H6. cbn [N.eqb Pos.eqb]. unfold opt_bscalar.
+  destruct (conv_i64 (s_kind t) z) eqn:Ec; cbn [option_map]; [reflexivity|].
+  rewrite Hk. destruct (s_kind t) eqn:Ekt; try reflexivity.
+  exfalso. unfold in_range in Hr. apply andb_prop in Hr as [H1 H2]. apply Z.leb_le in H1, H2.
+  assert (conv_i64 KInt64 z = Some (SInt z)) by (apply i64_to_int_exact_complete; auto).
+  congruence.
+Qed.
+
+Lemma model_other o t vt sv : s_id t <> s_id vt ->
+  is_f64_val (DS vt sv) = None -> is_i64_val (DS vt sv) = None ->
+  model (mk (FScalar t) (DS vt sv) o) =
+  if skind_eqb (s_kind t) (s_kind vt) then OBound (canon_tval (TV t sv)) else ODeclined (Some (canon_dval (DS vt sv))).
+Proof.
+  intros Hne H1 H2. unfold model, mk. cbn [c_target c_src]. unfold try_convert. cbn [dval_ty fty_id].
+  destruct (N.eqb_spec (s_id vt) (s_id t)); [congruence|].
+  rewrite H1, H2. destruct (skind_eqb (s_kind t) (s_kind vt)); reflexivity.
+Qed.
+
+Lemma model_ptr o id e vt sv : id <> s_id vt ->
+  model (mk (FPtr id e) (DS vt sv) o) =
+  if skind_eqb (s_kind e) (s_kind vt) then OBound (canon_tval (TP id e sv)) else ODeclined (Some (canon_dval (DS vt sv))).
+Proof.
+  intros Hne. destruct (skind_eqb (s_kind e) (s_kind vt)) eqn:Ek.
+  - apply skind_eqb_eq in Ek. unfold model, mk. cbn [c_target c_src].
+    rewrite pointer_value_kept by assumption. reflexivity.
+  - unfold model, mk. cbn [c_target c_src]. unfold try_convert. cbn [dval_ty fty_id].
+    destruct (N.eqb_spec (s_id vt) id); [congruence|].
+    unfold is_f64_val, is_i64_val.
+    destruct sv; try (rewrite Ek; reflexivity).
+    + destruct (N.eqb (s_id vt) 6); rewrite Ek; reflexivity.
+    + destruct (N.eqb (s_id vt) 13); rewrite Ek; reflexivity.
+Qed.
+
+Lemma dval_eqb_canon_refl t sv : dval_eqb (canon_dval (DS t sv)) (canon_dval (DS t sv)) = true.
+Proof. cbn. now rewrite sty_eqb_refl, sval_eqb_refl. Qed.
+
+Lemma corr_implies_ok c : in_domain c = true -> k6_boundary c = false -> corr c = true -> ok c = true.
+Proof.
+  intros Hd Hk6 Hc. unfold ok. rewrite Hd. cbn [andb]. rewrite check_agrees.
+  unfold corr in Hc. apply obs_eqb_eq in Hc. rewrite Hc. clear Hc.
+  destruct c as [T v o]. change {| c_target := T; c_src := v; c_obs := o |} with (mk T v o) in *.
+  cbn [c_target c_src mk].
+  unfold in_domain in Hd. cbn [c_target c_src mk] in Hd. apply andb_prop in Hd as [HT Hv].
+  destruct v as [|vt sv| | |]; try discriminate.
+  - (* nil *)
+    destruct T; try discriminate; reflexivity.
+  - apply andb_prop in Hv as [Hv Hrel]. apply andb_prop in Hv as [Hvt Hsv].
+    destruct T as [t|id e|id|id|id kd]; try discriminate.
+    + (* scalar target *)
+      cbn [spec].
+      destruct (N.eqb_spec (s_id t) (s_id vt)) as [E|Hne].
+      { rewrite (model_same_id o t vt sv E). cbn [agrees]. apply tval_eqb_refl. }
+      assert (Hdec : agrees XDecline (DS vt sv) (obs_of t (DS vt sv) None) = true) by apply agrees_decline'.
+      unfold ids_ok in Hvt. apply andb_prop in Hvt as [O13 O6].
+      destruct sv as [bb|s|z|b|b].
+      * rewrite model_other; [|exact Hne|reflexivity|reflexivity].
+        destruct (skind_eqb (s_kind t) (s_kind vt)); [apply tval_eqb_refl|apply dval_eqb_canon_refl].
+      * rewrite model_other; [|exact Hne|reflexivity|reflexivity].
+        destruct (skind_eqb (s_kind t) (s_kind vt)); [apply tval_eqb_refl|apply dval_eqb_canon_refl].
+      * (* SInt *)
+        destruct (N.eqb_spec (s_id vt) 6) as [E6|N6].
+        -- apply skind_eqb_eq in O6. rewrite O6 in Hsv.
+           assert (Hr : in_range KInt64 z = true).
+           { cbn [sval_ok] in Hsv. apply andb_prop in Hsv as [_ Hr]. exact Hr. }
+           rewrite model_i64 by assumption. apply i64_case; [|exact Hdec].
+           unfold in_range in Hr. apply andb_prop in Hr as [H1 H2]. apply Z.leb_le in H1, H2.
+           cbn [int_min int_max] in *. lia.
+        -- rewrite model_other; [|exact Hne|reflexivity|].
+           2:{ unfold is_i64_val. destruct (N.eqb_spec (s_id vt) 6); [contradiction|reflexivity]. }
+           destruct (skind_eqb (s_kind t) (s_kind vt)); [apply tval_eqb_refl|apply dval_eqb_canon_refl].
+      * rewrite model_other; [|exact Hne|reflexivity|reflexivity].
+        destruct (skind_eqb (s_kind t) (s_kind vt)); [apply tval_eqb_refl|apply dval_eqb_canon_refl].
+      * (* SF64 *)
+        destruct (N.eqb_spec (s_id vt) 13) as [E13|N13].
+        -- apply skind_eqb_eq in O13.
+           rewrite model_f64 by assumption. apply f64_case; [| |exact Hdec].
+           ++ rewrite O13 in Hsv. cbn [sval_ok] in Hsv. apply andb_prop in Hsv as [H1 H2].
+              apply Z.leb_le in H1. apply Z.ltb_lt in H2. lia.
+           ++ unfold k6_boundary in Hk6. cbn [c_target c_src mk] in Hk6.
+              rewrite E13 in Hk6. cbn [N.eqb Pos.eqb andb] in Hk6.
+              destruct (N.eqb_spec (s_id t) 13) as [E|_]; [congruence|]. exact Hk6.
+        -- rewrite model_other; [|exact Hne| |reflexivity].
+           2:{ unfold is_f64_val. destruct (N.eqb_spec (s_id vt) 13); [contradiction|reflexivity]. }
+           destruct (skind_eqb (s_kind t) (s_kind vt)); [apply tval_eqb_refl|apply dval_eqb_canon_refl].
+    + (* pointer target *)
+      apply andb_prop in Hrel as [Hne _]. apply negb_true_iff in Hne. apply N.eqb_neq in Hne.
+      rewrite model_ptr by exact Hne. cbn [spec].
+      destruct (N.eqb_spec id (s_id vt)); [contradiction|].
+      destruct (skind_eqb (s_kind e) (s_kind vt)); [apply tval_eqb_refl|apply dval_eqb_canon_refl].
+    + (* interface target *)
+      unfold model. cbn [c_target c_src mk try_convert view spec agrees]. apply tval_eqb_refl.
+Qed.
